@@ -61,8 +61,8 @@ def run(ck):
         "modelled: literal marshaller (Typed.start/skip/node/encode, appenders, GraphResolver lookups, "
         "sudsobject.Iter ordering, Document.bodycontent/mkparam, RPC.bodycontent/method, PartElement) at the "
         "level of the namespace infoset",
-        "not modelled here: prefix assignment/serialisation (C05), argument binding (C08), lexical forms (C06), "
-        "rpc/encoded arrays (covered by correspondence only where exercised)",
+        "rpc/encoded (SOAP section 5) is modelled and proved separately: coq/C01/Encoded.v, EncodedProps.v",
+        "not modelled here: prefix assignment/serialisation (C05), argument binding (C08), lexical forms (C06)",
     ]
     proof_ok = ck.prove(THEOREMS) if THEOREMS else None
 
@@ -224,6 +224,13 @@ def run(ck):
                "repetition) index; non-trivial = some argument is an object or list (all bare/rpc cases)")
     if proof_ok is False:
         ck.unproved("proof obligation of C01 no longer checks: " + ck.proof_log[-1500:], {"log": ck.proof_log[-3000:]})
+    # ---- rpc/encoded (SOAP section 5): coq/C01/Encoded*.v + harness/c01enc.py
+    from . import c01enc
+    enc_ok = c01enc.prove_encoded(ck)
+    c01enc.run_encoded(ck, enc_ok)
+    if enc_ok is False:
+        ck.unproved("proof obligation of C01 (rpc/encoded) no longer checks: " + ck.proof_log[-1500:],
+                    {"log": ck.proof_log[-3000:]})
     if unproved:
         ck.unproved("model/implementation correspondence of C01 no longer holds: the requests still meet the "
                     "reference on every generated input, but the implementation is no longer the algorithm the "
@@ -232,6 +239,9 @@ def run(ck):
 
 def replay(ck, payload):
     common.force_repo_path()
+    if "encoded" in str(payload.get("key", "")) or payload.get("style") == "encoded":
+        from . import c01enc
+        return c01enc.replay_encoded(ck, payload)
     print(payload.get("what"))
     print(payload.get("envelope") or payload.get("disagreements"))
     return 0
